@@ -48,7 +48,9 @@ def strict_domain(layers, cfg, mods):
     for name, defn in layers.items():
         s = layer_modules(defn, mods)
         if s is None:
-            return False, "layer-without-modules"
+            if name == cfg["subject"] or name in cfg["objects"] or any(k != "regex" for k, _ in defn):
+                return False, "layer-without-modules"
+            s = set()  # a regex layer the rule does not mention and that matches nothing: just no modules
         sets[name] = s
         mine = []
         for kind, text in defn:
@@ -71,7 +73,7 @@ def strict_domain(layers, cfg, mods):
 
 
 def evaluate(layers, cfg, mods, imps):
-    sets = {n: layer_modules(d, mods) for n, d in layers.items()}
+    sets = {n: layer_modules(d, mods) or set() for n, d in layers.items()}
     ss = sets[cfg["subject"]]
     objs = [] if cfg.get("anything") else list(cfg["objects"])
     verb, exc = cfg["verb"], cfg["exc"]
@@ -113,7 +115,7 @@ def report(layers, cfg, mods, imps):
     """-> (passes, positive import pairs, negative lines, layer_of) by the documented semantics: the violating set of
     a failing layer rule (forbidden imports between the subject layer and an object layer / something else) and, for
     missing required access, (subject layer, object layers it is missing for, 'anything else' flag)."""
-    sets = {n: layer_modules(d, mods) for n, d in layers.items()}
+    sets = {n: layer_modules(d, mods) or set() for n, d in layers.items()}
     ss = sets[cfg["subject"]]
     objs = [] if cfg.get("anything") else list(cfg["objects"])
     verb, exc = cfg["verb"], cfg["exc"]
